@@ -9,7 +9,10 @@
 //!    `flat_remaining` / `prev_existing` / `doc_cmp` / `under` of prelude/{stitch_spec,hunkiter_spec,apath_spec}.rs.
 //!    Every entry carries the name of its band as symlink target, so "comes unmodified from the newest version that
 //!    covers its path" is compared too.
-//!    Input: {"bands":[null | {"closed":bool,"broken_head":bool,"hunks":{"0":["/a","/b"],"1":"garbage",...}}], "list":N, "subtree":"/"}
+//!    Input: {"bands":[null | {"closed":bool,"broken_head":bool,"no_head":bool,"hunks":{"0":["/a","/b"],"1":"garbage",...}}], "list":N, "subtree":"/"}
+//!    (`broken_head`: BANDHEAD holds garbage; `no_head`, round 7: the band directory and its hunks exist but there is no
+//!    BANDHEAD file at all -- a half-deleted band, or one whose creation was interrupted: it is not a version and the
+//!    stitching walks on to the band before it.)
 //!  * `hunkiter_listdir_panic`: a band whose index directory cannot be listed (here: the directory `bNNNN/i` is gone,
 //!    as after an interrupted deletion of the band) makes `IndexRead::iter_available_hunks` panic in
 //!    `.expect("hunks available")`; expected (C10): no panic.
@@ -44,6 +47,8 @@ enum Hunk {
 struct BandDesc {
     closed: bool,
     broken_head: bool,
+    /// the directory exists (with its hunks) but has no BANDHEAD file
+    no_head: bool,
     hunks: BTreeMap<u32, Hunk>,
 }
 
@@ -65,7 +70,7 @@ fn desc_to_json(a: &ArchDesc) -> Value {
                             },
                         );
                     }
-                    json!({"closed": b.closed, "broken_head": b.broken_head, "hunks": h})
+                    json!({"closed": b.closed, "broken_head": b.broken_head, "no_head": b.no_head, "hunks": h})
                 }
             })
             .collect(),
@@ -92,6 +97,7 @@ fn desc_from_json(v: &Value) -> Option<ArchDesc> {
         out.push(Some(BandDesc {
             closed: b.get("closed")?.as_bool()?,
             broken_head: b.get("broken_head").and_then(|x| x.as_bool()).unwrap_or(false),
+            no_head: b.get("no_head").and_then(|x| x.as_bool()).unwrap_or(false),
             hunks,
         }));
     }
@@ -139,7 +145,7 @@ fn spec_under(s: &str, a: &str) -> bool {
 /// flat_remaining over the LISTED hunk numbers (the files that exist), skipping unreadable ones
 fn spec_band_entries(b: &BandDesc, after: &Option<String>) -> Vec<String> {
     let mut out = Vec::new();
-    if b.broken_head {
+    if b.broken_head || b.no_head {
         return out; // m_opens is false
     }
     for (_n, h) in &b.hunks {
@@ -228,7 +234,9 @@ async fn build_archive(dir: &Path, a: &ArchDesc) -> Result<Archive, String> {
         } else {
             b"{\"start_time\":1700000000,\"band_format_version\":\"0.6.3\",\"format_flags\":[]}\n"
         };
-        fs::write(bdir.join("BANDHEAD"), head).map_err(|e| e.to_string())?;
+        if !b.no_head {
+            fs::write(bdir.join("BANDHEAD"), head).map_err(|e| e.to_string())?;
+        }
         for (n, h) in &b.hunks {
             let sub = bdir.join("i").join(format!("{:05}", n / 10000));
             fs::create_dir_all(&sub).map_err(|e| e.to_string())?;
@@ -301,7 +309,7 @@ async fn run_one(a: &ArchDesc, ids: &[usize], subtrees: &[&str]) -> Result<Optio
     let archive = build_archive(&tmp.path().join("a"), a).await?;
     for &id in ids {
         match &a[id] {
-            Some(b) if !b.broken_head => {}
+            Some(b) if !b.broken_head && !b.no_head => {}
             _ => continue, // the listed version itself must exist and open
         }
         for st in subtrees {
@@ -335,10 +343,11 @@ fn band_options() -> Vec<Option<BandDesc>> {
     let mut out = vec![None];
     for l in layouts() {
         for closed in [false, true] {
-            out.push(Some(BandDesc { closed, broken_head: false, hunks: l.clone() }));
+            out.push(Some(BandDesc { closed, broken_head: false, no_head: false, hunks: l.clone() }));
         }
     }
-    out.push(Some(BandDesc { closed: false, broken_head: true, hunks: layouts()[2].clone() }));
+    out.push(Some(BandDesc { closed: false, broken_head: true, no_head: false, hunks: layouts()[2].clone() }));
+    out.push(Some(BandDesc { closed: false, broken_head: false, no_head: true, hunks: layouts()[2].clone() }));
     out
 }
 
@@ -350,7 +359,8 @@ fn search() -> Value {
         for b0 in &opts {
             for b1 in &opts {
                 for b2 in &opts {
-                    if b2.is_none() {
+                    // (the newest band is one that is listed: a directory without a head in that place adds nothing)
+                    if b2.as_ref().map(|b| b.no_head).unwrap_or(true) {
                         continue;
                     }
                     let a: ArchDesc = vec![b0.clone(), b1.clone(), b2.clone()];
@@ -386,7 +396,7 @@ fn search() -> Value {
                 if split < paths.len() {
                     hunks.insert(1u32, Hunk::Entries(paths[split..].to_vec()));
                 }
-                let a: ArchDesc = vec![Some(BandDesc { closed: true, broken_head: false, hunks })];
+                let a: ArchDesc = vec![Some(BandDesc { closed: true, broken_head: false, no_head: false, hunks })];
                 tried += 1;
                 match run_one(&a, &[0], &st_refs).await {
                     Ok(Some(v)) => return Some(v),
@@ -398,7 +408,7 @@ fn search() -> Value {
         })
     });
     res.unwrap_or_else(|| json!({"found": false, "kind": "stitch_listing", "tried_archives": tried,
-        "explain": "no archive of 3 versions (each absent / unopenable / complete / incomplete, 9 hunk layouts incl. gaps, unreadable and empty hunks) lists differently from the spec"}))
+        "explain": "no archive of 3 versions (each absent / unopenable / without a head file / complete / incomplete, 9 hunk layouts incl. gaps, unreadable and empty hunks) lists differently from the spec"}))
 }
 
 fn replay(input: &Value) -> Value {
@@ -424,8 +434,8 @@ fn listdir_panic() -> Value {
         let tmp = tempfile::tempdir().unwrap();
         let dir = tmp.path().join("a");
         let a: ArchDesc = vec![
-            Some(BandDesc { closed: true, broken_head: false, hunks: layouts()[2].clone() }),
-            Some(BandDesc { closed: false, broken_head: false, hunks: layouts()[1].clone() }),
+            Some(BandDesc { closed: true, broken_head: false, no_head: false, hunks: layouts()[2].clone() }),
+            Some(BandDesc { closed: false, broken_head: false, no_head: false, hunks: layouts()[1].clone() }),
         ];
         let archive = match build_archive(&dir, &a).await {
             Ok(x) => x,
